@@ -4,6 +4,7 @@ import (
 	"context"
 	"fmt"
 	"net"
+	"sync"
 
 	"github.com/andydunstall/yamux"
 	"go.uber.org/zap"
@@ -51,6 +52,8 @@ type listener struct {
 	//
 	// This is used to accept incoming multiplexed connections.
 	sess *yamux.Session
+	// mu protects sess, which is replaced when reconnecting.
+	mu sync.Mutex
 
 	// closeCtx closes the listener on listener.Close()
 	closeCtx    context.Context
@@ -76,7 +79,7 @@ func (l *listener) Accept() (net.Conn, error) {
 
 func (l *listener) AcceptWithContext(ctx context.Context) (net.Conn, error) {
 	for {
-		conn, err := l.sess.AcceptStreamWithContext(ctx)
+		conn, err := l.session().AcceptStreamWithContext(ctx)
 		if err == nil {
 			return conn, nil
 		}
@@ -107,10 +110,10 @@ func (l *listener) Addr() net.Addr {
 func (l *listener) Close() error {
 	// Cancel to stop reconnect attempts.
 	l.closeCancel()
-	if l.sess != nil {
+	if sess := l.session(); sess != nil {
 		// Stop accepting connections. This notifies the server that this
 		// upstream is no longer accepting connections.
-		return l.sess.GoAway()
+		return sess.GoAway()
 	}
 	return nil
 }
@@ -118,9 +121,9 @@ func (l *listener) Close() error {
 func (l *listener) Shutdown() error {
 	// Cancel to stop reconnect attempts.
 	l.closeCancel()
-	if l.sess != nil {
+	if sess := l.session(); sess != nil {
 		// Close the underlying connection.
-		return l.sess.Close()
+		return sess.Close()
 	}
 	return nil
 }
@@ -137,8 +140,25 @@ func (l *listener) connect(ctx context.Context) error {
 	if err != nil {
 		return err
 	}
+
+	l.mu.Lock()
+	defer l.mu.Unlock()
+
+	// If the listener was closed while (re)connecting, the new connection must
+	// not be left open, otherwise the listener would remain registered with
+	// the server after Close or Shutdown returned.
+	if l.closeCtx.Err() != nil {
+		_ = sess.Close()
+		return ErrClosed
+	}
 	l.sess = sess
 	return nil
+}
+
+func (l *listener) session() *yamux.Session {
+	l.mu.Lock()
+	defer l.mu.Unlock()
+	return l.sess
 }
 
 var _ Listener = &listener{}
